@@ -61,6 +61,7 @@ def gen_cases(tier, seed):
         cases.append({"shells": shells, "points": pts, "dm": dm, "transform": T, "alpha": a, "beta": b,
                       "classes": classes + pcls + [tcls, dcls, abcls, "alpha=%r" % a if a in (0, 1, 0.5) else "alpha:real", "beta=0" if b == 0 else "beta:nonzero"],
                       "cost": len(pts) * norb * norb * 30})
+    cases += bases.argrep_variants("C15", seed, tier, cases, 6, ok=lambda c: "shells" in c and c.get("kind") in (None, "whole", "kernel", "perm", "real"))  # constructor arguments in other in-memory representations
     return cases
 
 
